@@ -135,7 +135,7 @@ def gen_formula(rng, response=None, allow_group=True, max_terms=4, extra=False):
 
 # ------------------------------------------------------------------------------------------------
 def frac(x):
-    if x is None:
+    if x is None or x is pd.NA:
         return None
     if isinstance(x, (float, np.floating)):
         if math.isnan(x):
